@@ -1137,6 +1137,8 @@ pub struct SymWriter<const W: usize> {
     pub fail_at: usize,
     pub failed: bool,
     pub overflow: bool,
+    /// accept only a symbolic part of each write (short writes)
+    pub partial: bool,
 }
 
 impl<const W: usize> std::io::Write for SymWriter<W> {
@@ -1147,8 +1149,20 @@ impl<const W: usize> std::io::Write for SymWriter<W> {
             self.failed = true;
             return Err(std::io::Error::from(std::io::ErrorKind::Other));
         }
+        // io::Write allows a short write: accept a symbolic count in 1..=buf.len()
+        #[cfg(kani)]
+        let want: usize = if self.partial { any() } else { usize::MAX };
+        #[cfg(not(kani))]
+        let want: usize = usize::MAX;
+        let mut n = want;
+        if n == 0 {
+            n = 1;
+        }
+        if n > buf.len() {
+            n = buf.len();
+        }
         let mut i = 0;
-        while i < buf.len() {
+        while i < n {
             if self.len < W {
                 self.out[self.len] = buf[i];
                 self.len += 1;
@@ -1157,7 +1171,7 @@ impl<const W: usize> std::io::Write for SymWriter<W> {
             }
             i += 1;
         }
-        Ok(buf.len())
+        Ok(n)
     }
     fn flush(&mut self) -> std::io::Result<()> {
         Ok(())
@@ -1175,7 +1189,7 @@ pub fn stream_replace<C: Case, A: Automaton, const T: usize, const W: usize, con
     let hay: [u8; T] = any();
     let rdr = SymReader::new(&hay[..], 0, usize::MAX);
     let fail_at: usize = if WFAULT { any() } else { usize::MAX };
-    let mut wtr = SymWriter::<W> { out: [0; W], len: 0, calls: 0, fail_at, failed: false, overflow: false };
+    let mut wtr = SymWriter::<W> { out: [0; W], len: 0, calls: 0, fail_at, failed: false, overflow: false, partial: !WFAULT };
     let mut closure_ok = true;
     let hayref = &hay;
     let res = aut.try_stream_replace_all_with(rdr, &mut wtr, |m, bytes, w| {
@@ -1670,6 +1684,27 @@ pub fn purity_clone<C: Case, A: Automaton + Clone, const N: usize>(aut: &A) {
     core::mem::forget(cl);
 }
 
+/// Two searches over ONE AND THE SAME haystack object (different spans and
+/// anchoring): the second answers as the definition says, whatever the first
+/// looked at (hidden state keyed by the haystack address, e.g. a "last scan"
+/// memo in a prefilter, shows only this way).
+#[cfg(kani)]
+pub fn purity_same<C: Case, A: Automaton, const N: usize>(aut: &A) {
+    let h: [u8; N] = any();
+    let (s1, e1) = any_span(N);
+    let (s2, e2) = any_span(N);
+    let a1: bool = any();
+    let a2: bool = any();
+    let ok = |an: bool| C::SK == 0 || (C::SK == 1 && !an) || (C::SK == 2 && an);
+    assume(ok(a1) && ok(a2));
+    let r1 = aut.try_find(&Input::new(&h[..]).span(s1..e1).anchored(anch(a1))).unwrap();
+    let r2 = aut.try_find(&Input::new(&h[..]).span(s2..e2).anchored(anch(a2))).unwrap();
+    let w2 = oracle::find(C::pats(), &h[..], s2, e2, C::MK, a2, C::CI);
+    assert!(same(r2, w2), "a search after another search over the same haystack differs from the definition");
+    cover!(r1.is_some() && r2.is_some() && s2 < s1, "second search starts earlier than the first and matches");
+    cover!(r1.is_some() && r2.is_some() && r1 != r2, "two different matches");
+}
+
 // ---------------------------------------------------------------------------
 // C19: bounded work
 
@@ -2040,7 +2075,7 @@ pub fn stream_wfault<C: Case, A: Automaton, const T: usize, const W: usize>(aut:
     let hay: [u8; T] = any();
     let rdr = SymReader::new(&hay[..], 0, usize::MAX);
     let fail_at: usize = any();
-    let mut wtr = SymWriter::<W> { out: [0; W], len: 0, calls: 0, fail_at, failed: false, overflow: false };
+    let mut wtr = SymWriter::<W> { out: [0; W], len: 0, calls: 0, fail_at, failed: false, overflow: false, partial: false };
     let res = aut.try_stream_replace_all_with(rdr, &mut wtr, |m, _bytes, w| {
         std::io::Write::write_all(w, &[b'0' + m.pattern().as_usize() as u8])
     });
